@@ -407,6 +407,34 @@ theorem randomkey_refines {R : Routes} {fixed : Bool} {st : Shards S.Val} (h : I
   · intro e; rw [e]
   · intro e; injection e
 
+/-- **two-key commands whose keys share a shard** (RENAME, RENAMENX, RPOPLPUSH, LMOVE, SORT … STORE,
+    a two-key script — any `exec2` that is local): the command runs whole on that shard and does
+    to the union what it does to one store; same reply.  A cross-shard pair is outside this
+    hypothesis (listed findings `C03:two-key:*`, `two_key_counterexample`). -/
+theorem same_shard_two_key_refines (hL : E.Local) (R : Routes) (fixed : Bool) (hv : R.Valid)
+    (hN : 0 < R.N) (hc : Consistent R fixed) {st : Shards S.Val} (h : Inv R st) (a b : Key)
+    (op : S.Op2) (hab : R.gen fixed a = R.gen fixed b) :
+    Inv R (execN E R fixed st (.two a b op)).1 ∧
+    abs (execN E R fixed st (.two a b op)).1 = (E.exec (abs st) (.two a b op)).1 ∧
+    (execN E R fixed st (.two a b op)).2 = (E.exec (abs st) (.two a b op)).2 := by
+  have hab' : R.bytes a = R.bytes b := by rwa [hc a, hc b] at hab
+  exact routePrimary_refine hL hv hN hc h (.two a b op) rfl
+    (by intro k0 hk0 k' hk'
+        have e1 : a = k0 := by simpa [primaryKey] using hk0
+        simp only [keyList, List.mem_cons, List.not_mem_nil, or_false] at hk'
+        rcases hk' with rfl | rfl
+        · rw [e1]
+        · rw [← e1, hab'])
+    (by intro hp; simp [primaryKey] at hp)
+
+/-- MSETNX whose keys all live on the first key's shard -/
+theorem same_shard_msetnx_refines (hL : E.Local) (R : Routes) (fixed : Bool) (hv : R.Valid)
+    (hN : 0 < R.N) (hc : Consistent R fixed) {st : Shards S.Val} (h : Inv R st)
+    (kvs : List (Key × Bytes)) (hr : Routable R fixed (.msetnx kvs : Cmd S) = true) :
+    abs (execN E R fixed st (.msetnx kvs)).1 = (E.exec (abs st) (.msetnx kvs)).1 ∧
+    replyEqv (execN E R fixed st (.msetnx kvs)).2 (E.exec (abs st) (.msetnx kvs)).2 = true :=
+  (shards_refine_single hL R fixed hv hN hc h (.msetnx kvs) hr).2
+
 end step
 
 /-! ## sequences, reachable states, two shard counts -/
